@@ -68,6 +68,14 @@ def main():
         except Exception:
             continue
         lines.append("| %s | %s | %s |" % (m.get("id"), str(m.get("needs_to_manifest", "")).replace("|", "/"), str(m.get("result", "")).replace("|", "/")))
+    lines.append("\n### 10.8 False alarms corrected (a check that was wrong, never a known finding)\n")
+    lines.append("Collected per author from notes/false_alarms_*.md; in every case the machinery was corrected (or the verdict removed) and the "
+                 "check re-run until silent; no check that was right was loosened.\n")
+    for fn in sorted(glob.glob(os.path.join(HERE, "notes", "false_alarms_*.md"))):
+        body = open(fn).read().strip().splitlines()
+        lines.append("#### " + os.path.basename(fn))
+        lines += [l if not l.startswith("#") else "**" + l.lstrip("# ") + "**" for l in body]
+        lines.append("")
     text = "\n".join(lines) + "\n"
     p = os.path.join(HERE, "DESIGN.md")
     s = open(p).read()
